@@ -7,6 +7,7 @@ pub mod c06;
 pub mod c08;
 pub mod c12;
 pub mod c14;
+pub mod c19;
 
 pub fn run(ctx: &Ctx) -> bool {
     match ctx.id.as_str() {
@@ -17,6 +18,7 @@ pub fn run(ctx: &Ctx) -> bool {
         "C08" => c08::run(ctx),
         "C12" => c12::run(ctx),
         "C14" => c14::run(ctx),
+        "C19" => c19::run(ctx),
         _ => return false,
     }
     true
@@ -32,6 +34,7 @@ fn replay_one(ctx: &Ctx, sub: &str, input: &serde_json::Value) -> Option<Result<
         "C08" => c08::replay(ctx, sub, input),
         "C12" => c12::replay(ctx, sub, input),
         "C14" => c14::replay(ctx, input),
+        "C19" => c19::replay(ctx, input),
         _ => return None,
     })
 }
